@@ -60,6 +60,28 @@ impl TopicCache {
   }
 }
 
+impl TopicCache {
+  /// (writer, sequence number, "data" | "dispose-by-key" | "dispose-by-key-hash") of every change
+  pub(crate) fn verif_kinds(&self) -> Vec<(GUID, i64, &'static str)> {
+    use crate::dds::ddsdata::DDSData;
+    self
+      .changes
+      .values()
+      .map(|cc| {
+        (
+          cc.writer_guid,
+          i64::from(cc.sequence_number),
+          match cc.data_value {
+            DDSData::Data { .. } => "data",
+            DDSData::DisposeByKey { .. } => "dispose-by-key",
+            DDSData::DisposeByKeyHash { .. } => "dispose-by-key-hash",
+          },
+        )
+      })
+      .collect()
+  }
+}
+
 impl DDSCache {
   /// A DDSCache holding exactly this topic cache, so that the real `garbage_collect` (what the event
   /// loop's cache-clean timer calls) can be run on a simulator's cache.
